@@ -97,12 +97,18 @@ fn topo(txs: &[Transaction]) -> Vec<usize> {
     order
 }
 
+/// Sealing with a proposer action makes the split of fees into fee pool and tips visible in the header (the
+/// reward coin holds the tips); sealing without one would fold both into the fee pool.
+fn probe_action() -> Option<melstructs::ProposerAction> {
+    Some(melstructs::ProposerAction { fee_multiplier_delta: 3, reward_dest: crate::world::CovSpec::True.hash() })
+}
+
 fn outcome_of(pool: &rayon::ThreadPool, st: &Unsealed, txs: &[Transaction]) -> Result<Result<Header, String>, crate::util::PanicInfo> {
     catch(|| {
         pool.install(|| {
             let mut s = st.clone();
             match s.apply_tx_batch(txs) {
-                Ok(()) => Ok(s.seal(None).header()),
+                Ok(()) => Ok(s.seal(probe_action()).header()),
                 Err(e) => Err(format!("{:?}", e).split('(').next().unwrap_or("").to_string()),
             }
         })
@@ -235,7 +241,7 @@ impl Monitor for C03 {
                         }
                         s.apply_tx(&txs[*i]).map_err(|e| format!("{:?}", e))?;
                     }
-                    Ok::<Header, String>(s.seal(None).header())
+                    Ok::<Header, String>(s.seal(probe_action()).header())
                 })
             });
             match r {
@@ -315,6 +321,7 @@ pub fn profile() -> Profile {
     p.max_txs = 5;
     p.max_steps = 10;
     p.lead_blocks = 6;
+    p.heavy_bias = true;
     p
 }
 
@@ -345,7 +352,7 @@ pub fn run(ctx: &Ctx) -> (Outcome, String, Option<bool>) {
         let o = cross_process(ctx, 48);
         out.absorb(o);
     }
-    let rule = "For every batch of >=2 transactions met in generated histories (independent, chains, fan-in/fan-out, repeated, mutated; acceptable and unacceptable), from the state it was generated for: every permutation (all n! for n<=4, otherwise identity, reverse and 22 pseudo-random ones) x rayon pools of 1 and 4 threads; (accepted?, header of apply_tx_batch(perm).seal(None)) must be identical for all, and - when accepted - equal to applying the transactions one at a time in an order where parents precede children. Every sealed block with >=2 transactions is re-validated by its parent through apply_block under 8 differently built HashSets (fresh RandomState, rotated/reversed insertion) on alternating pool sizes and must give the same result. Before a batch is applied, variants of it with the same signature-free bodies but stripped / bit-flipped signatures are judged on a scratch copy; they are judged again after the properly signed batch has been validated and must get the same verdict (the outcome may not depend on what the process validated earlier). Thorough tier only: 48 generated histories are additionally executed in two fresh child processes each (own hash seeds, nothing validated before) and must give the same accept/reject sequence and header hashes as in the warmed-up parent process. Non-trivial = a set with a dependency for which a tested permutation puts a child before its parent; distinct by (pre-state coin root, set of transaction hashes).".to_string();
+    let rule = "For every batch of >=2 transactions met in generated histories (independent, chains, fan-in/fan-out, repeated, mutated; acceptable and unacceptable), from the state it was generated for: every permutation (all n! for n<=4, otherwise identity, reverse and 22 pseudo-random ones) x rayon pools of 1 and 4 threads; (accepted?, header of apply_tx_batch(perm).seal(with a fixed proposer action, so that the fee-pool / tips split is visible)) must be identical for all, and - when accepted - equal to applying the transactions one at a time in an order where parents precede children. Every sealed block with >=2 transactions is re-validated by its parent through apply_block under 8 differently built HashSets (fresh RandomState, rotated/reversed insertion) on alternating pool sizes and must give the same result. Before a batch is applied, variants of it with the same signature-free bodies but stripped / bit-flipped signatures are judged on a scratch copy; they are judged again after the properly signed batch has been validated and must get the same verdict (the outcome may not depend on what the process validated earlier). Thorough tier only: 48 generated histories are additionally executed in two fresh child processes each (own hash seeds, nothing validated before) and must give the same accept/reject sequence and header hashes as in the warmed-up parent process. Non-trivial = a set with a dependency for which a tested permutation puts a child before its parent; distinct by (pre-state coin root, set of transaction hashes).".to_string();
     (out, rule, None)
 }
 
